@@ -411,9 +411,9 @@ def c17_check_cli(prog, listing, obs):
 
 def run_c17(tier, rng, rep, info, deadline):
     hist = collections.Counter()
-    n_pool = {"quick": 420, "thorough": 3000}[tier]
-    n_hist = {"quick": 700, "thorough": 6000}[tier]
-    n_cli = {"quick": 40, "thorough": 300}[tier]
+    n_pool = {"quick": 600, "thorough": 5000}[tier]
+    n_hist = {"quick": 1200, "thorough": 12000}[tier]
+    n_cli = {"quick": 60, "thorough": 400}[tier]
     pool = c17_pool(rng, n_pool)
     # (a) every program first in a fresh interpreter, 5 hash seeds
     jobs = []
@@ -434,21 +434,7 @@ def run_c17(tier, rng, rep, info, deadline):
     for what, pay, fi in probs:
         broken.add(_h(pay["program"]))
         rep.violation(what, pay, fi)
-    # (b) model on P alone
     model = asmlib.model_batch([(p, None) for p in pool])
-    for i, prog in enumerate(pool):
-        if ref[i] is None or ref[i][0] == "TIMEOUT":
-            continue
-        rep.cov["traces_validated_against_impl"] += 1
-        if model[i][0] == "UNMODELLED":
-            hist["model:unmodelled"] += 1
-            continue
-        if not asmlib.same_obs(ref[i], model[i]) and _h(prog) not in broken:
-            rep.cov["disagreements_checked"] += 1
-            rep.violation("correspondence MProgram.assemble vs Program.process broken on a program assembled alone: impl %s, model %s"
-                          % (str(ref[i])[:160], str(model[i])[:160]),
-                          {"kind": "history", "history": [], "program": prog, "impl": ref[i], "model": model[i],
-                           "relation": "asmlib.same_obs(impl, model)"}, found_input=False)
     # (c) warm histories
     bad = [i for i, o in enumerate(ref) if o is not None and o[0] in ("DIAG", "INTERNAL")]
     internal = [i for i, o in enumerate(ref) if o is not None and o[0] == "INTERNAL"]
@@ -483,6 +469,7 @@ def run_c17(tier, rng, rep, info, deadline):
             if hn < 2:
                 rep.sample({"history": [pool[i] for i in h[:-1]], "program": pool[h[-1]], "obs": str(ref[h[-1]])[:200]})
             for what, pay, fi in c17_check_history(pool, ref, h, r, j[1]):
+                broken.add(_h(pay["program"]))
                 rep.violation(what, pay, fi)
         if rep.full():
             break
@@ -494,7 +481,26 @@ def run_c17(tier, rng, rep, info, deadline):
         rep.count(("cli", _h(pool[i])), nontrivial=True)
         hist["cli:" + (_cls(ref[i]) if ref[i] else "crash")] += 1
         for what, pay, fi in ps:
+            broken.add(_h(pay["program"]))
             rep.violation(what, pay, fi)
+    # (b) model on P alone
+    corr_reports = 0
+    for i, prog in enumerate(pool):
+        if ref[i] is None or ref[i][0] == "TIMEOUT":
+            continue
+        rep.cov["traces_validated_against_impl"] += 1
+        if model[i][0] == "UNMODELLED":
+            hist["model:unmodelled"] += 1
+            continue
+        if not asmlib.same_obs(ref[i], model[i]):
+            rep.cov["disagreements_checked"] += 1
+            if _h(prog) in broken or corr_reports >= 2:
+                continue
+            corr_reports += 1
+            rep.violation("correspondence MProgram.assemble vs Program.process broken on a program assembled alone: impl %s, model %s"
+                          % (str(ref[i])[:160], str(model[i])[:160]),
+                          {"kind": "history", "history": [], "program": prog, "impl": ref[i], "model": model[i],
+                           "relation": "asmlib.same_obs(impl, model)"}, found_input=False)
     rep.cov["programs"] = len(pool)
     rep.cov["input_distribution"] = dict(hist)
     rep.cov["rule"] = (
@@ -520,7 +526,10 @@ def run_c17(tier, rng, rep, info, deadline):
 
 def c17_replay(r):
     if r.get("kind") == "cli":
-        return c17_check_cli(r["program"], None, None)
+        res = _child([[r["program"]]], "0")[0]
+        if "crash" in res:
+            return [("forked interpreter crashed: %s" % res["crash"], r, True)]
+        return c17_check_cli(r["program"], res["steps"][0].get("listing"), _step_obs(res["steps"][0]))
     prog = r["program"]
     history = r.get("history", [])
     seed = r.get("hashseed", "0")
@@ -874,9 +883,10 @@ def expr_values_in_range(lines, obs, D):
 
 def run_c18(tier, rng, rep, info, deadline):
     hist = collections.Counter()
-    n_raw = {"quick": 4500, "thorough": 90000}[tier]
-    rounds = {"quick": 5, "thorough": 60}[tier]
+    n_raw = {"quick": 8000, "thorough": 120000}[tier]
+    rounds = {"quick": 8, "thorough": 80}[tier]
     programs = 0
+    corr_reports = 0
     for rnd in range(rounds):
         if rep.full() or time.time() > deadline:
             rep.cov["stopped_at_deadline"] = rnd
@@ -921,18 +931,8 @@ def run_c18(tier, rng, rep, info, deadline):
         impl = asmlib.impl_batch(batch)
         model = asmlib.model_batch(batch)
         programs += len(bases)
-        for k, (i, m) in enumerate(zip(impl, model)):
-            rep.cov["traces_validated_against_impl"] += 1
-            if m[0] == "UNMODELLED":
-                hist["model:unmodelled"] += 1
-            elif i[0] != "TIMEOUT" and not asmlib.same_obs(i, m):
-                rep.cov["disagreements_checked"] += 1
-                c = cases[k - len(bases)] if k >= len(bases) else None
-                rep.violation("correspondence model vs implementation broken on a %s: impl %s, model %s"
-                              % ((c["relation"] + " variant") if c else "base program", str(i)[:150], str(m)[:150]),
-                              {"kind": "correspondence", "program": batch[k][0], "files": None, "impl": i, "model": m,
-                               "relation": "asmlib.same_obs(impl, model)"}, found_input=False)
         known = []
+        implicated = set()
         for k, c in enumerate(cases):
             bo = impl[c["base"]]
             vo = impl[len(bases) + k]
@@ -954,9 +954,24 @@ def run_c18(tier, rng, rep, info, deadline):
                 # tight predicate: the rejection must disappear when ONLY the '@' / '_' characters of the new names change
                 known.append((c, status.split(":", 1)[1], what, bo))
             elif status == "violation":
+                implicated.update((c["base"], len(bases) + k))
                 rep.violation("%s: %s" % (c["relation"], what),
                               {"kind": "relation", "relation": c["relation"], "program": c["program"], "variant": c["variant"],
                                "params": c["params"], "base_obs": bo, "variant_obs": vo})
+        for k, (i, m) in enumerate(zip(impl, model)):
+            rep.cov["traces_validated_against_impl"] += 1
+            if m[0] == "UNMODELLED":
+                hist["model:unmodelled"] += 1
+            elif i[0] != "TIMEOUT" and not asmlib.same_obs(i, m):
+                rep.cov["disagreements_checked"] += 1
+                c = cases[k - len(bases)] if k >= len(bases) else None
+                if (k in implicated) or corr_reports >= 2:
+                    continue
+                corr_reports += 1
+                rep.violation("correspondence model vs implementation broken on a %s: impl %s, model %s"
+                              % ((c["relation"] + " variant") if c else "base program", str(i)[:150], str(m)[:150]),
+                              {"kind": "correspondence", "program": batch[k][0], "files": None, "impl": i, "model": m,
+                               "relation": "asmlib.same_obs(impl, model)"}, found_input=False)
         cf = [c18_counterfactual(c) for c, _, _, _ in known]
         cf_obs = asmlib.impl_batch([(x["variant"], None) for x in cf])
         for (c, fid, what, bo), x, xo in zip(known, cf, cf_obs):
@@ -1219,6 +1234,7 @@ def run_c19(tier, rng, rep, info, deadline):
     names = ["L%d" % k for k in range(12)] + ["LOOP", "START", "DONE", "TBL", "XX", "PCR1", "S9", "AT@X"]
     all_cases = []
     programs = 0
+    corr_reports = 0
     for rnd in range(rounds):
         if rep.full() or time.time() > deadline:
             rep.cov["stopped_at_deadline"] = rnd
@@ -1253,6 +1269,7 @@ def run_c19(tier, rng, rep, info, deadline):
         batch = [(c["main"], c["files"]) for c in cases]
         impl = asmlib.impl_batch(batch)
         model = asmlib.model_batch(batch)
+        corr = []
         for c, i, m in zip(cases, impl, model):
             spl = spliced[tuple(c["spliced"])]
             c["_spl"] = spl
@@ -1276,12 +1293,16 @@ def run_c19(tier, rng, rep, info, deadline):
             rep.cov["traces_validated_against_impl"] += 1
             if m[0] == "UNMODELLED":
                 hist["model:unmodelled"] += 1
-            elif i[0] != "TIMEOUT" and not asmlib.same_obs(i, m) and not probs:
+            elif i[0] != "TIMEOUT" and not asmlib.same_obs(i, m):
                 rep.cov["disagreements_checked"] += 1
-                rep.violation("correspondence model vs implementation broken on a program with INCLUDE (%s): impl %s, model %s"
-                              % (c["shape"], str(i)[:150], str(m)[:150]),
-                              {"kind": "correspondence", "program": c["main"], "files": c["files"], "impl": i, "model": m,
-                               "relation": "asmlib.same_obs(impl, model)"}, found_input=False)
+                if not probs:
+                    corr.append((c, i, m))
+        for c, i, m in corr[:max(0, 2 - corr_reports)]:
+            corr_reports += 1
+            rep.violation("correspondence model vs implementation broken on a program with INCLUDE (%s): impl %s, model %s"
+                          % (c["shape"], str(i)[:150], str(m)[:150]),
+                          {"kind": "correspondence", "program": c["main"], "files": c["files"], "impl": i, "model": m,
+                           "relation": "asmlib.same_obs(impl, model)"}, found_input=False)
         all_cases += [c for c in cases if not (c["expect"] == "diag" and c["_spl"][0] not in ("OK", "DIAG"))]
     # the real CLI on a sample (biased to nested splits with crossing references, plus error shapes)
     errs = [c for c in all_cases if c["expect"] == "diag"]
@@ -1342,7 +1363,15 @@ def run(pid, tier, seed, rep, info):
     proof_ok, details = rep.proof(info)
     deadline = time.time() + {"quick": 55, "thorough": 540}[tier]
     try:
+        # sanity probe: an implementation that cannot be imported would make every case 'INTERNAL' on both sides
+        probe = asmlib.impl_batch([(["L NOP\n", " BRA L\n"], None)])[0]
+        if probe != ("OK", "1220FD", None, None, ((0, 1, "12"), (1, 2, "20FD")), (("L", "00"),)):
+            rep.violation("the implementation does not assemble the probe program ['L NOP', ' BRA L']: %s" % str(probe)[:300],
+                          {"kind": "probe", "obs": probe}, found_input=False)
+            return
         {"C17": run_c17, "C18": run_c18, "C19": run_c19}[pid](tier, rng, rep, info, deadline)
+        if rep.cov["evaluations"] == 0:
+            rep.violation("no case was evaluated", {"kind": "probe"}, found_input=False)
     finally:
         asmlib.close_pool()
     if pid in info["props"] and not proof_ok and not rep.violations:
